@@ -23,6 +23,6 @@ while k < len(lines) and lines[k].startswith("|"):
 rest = "\n".join(lines[k:])
 D = D[:a] + hdr.format("caught by") + "".join(f"| {n} | {c} | {w} |\n" for n, c, w, _ in rows) + rest + D[b:]
 nrounds = max(r[3] for r in rows)
-D = re.sub(r"\d+ changes in rounds of 20", f"{len(rows)} changes in {nrounds} rounds of 20", D)
+D = re.sub(r"\d+ changes in \d+ rounds of 20", f"{len(rows)} changes in {nrounds} rounds of 20", D)
 open(V + "/DESIGN.md", "w").write(D)
 print(len(rows), "seeds;", nrounds, "rounds")
